@@ -34,7 +34,7 @@ variables
     cancelled = [x \in Items |-> FALSE], \* ScheduledItem.disposable.is_disposed
     due = [x \in Items |-> 0],
     \* ---- history
-    enq = [x \in Items |-> 0], immH = [x \in Items |-> FALSE], cseq = [x \in Items |-> 0], stamp = 0,
+    enq = [x \in Items |-> 0], immH = [x \in Items |-> FALSE], effH = [x \in Items |-> 0], cseq = [x \in Items |-> 0], stamp = 0,
     picked = {}, running = {}, runTh = [x \in Items |-> 0], startT = [x \in Items |-> 0],
     handle = {}, used = {}, dispRet = FALSE, late = {}, early = {}, refused = {}, calls = 0;
 
@@ -64,6 +64,8 @@ define {
                  /\ ~xie => Cardinality(spawned) <= 1
     Fifo == \A x, y \in Items : (immH[x] /\ immH[y] /\ enq[x] # 0 /\ enq[x] < enq[y] /\ y \in picked) => ~PendingI(x)
     DueOrder == \A x, y \in Items : (~immH[x] /\ ~immH[y] /\ enq[x] # 0 /\ y \in picked /\ enq[x] < cseq[y] /\ due[x] < due[y]) => ~PendingI(x)
+    CrossOrderTI == \A x, y \in Items : (immH[x] /\ ~immH[y] /\ enq[x] # 0 /\ y \in picked /\ enq[x] < cseq[y] /\ effH[x] < due[y]) => ~PendingI(x)
+    CrossOrderIT == \A x, y \in Items : (immH[x] /\ ~immH[y] /\ enq[y] # 0 /\ x \in picked /\ enq[y] < cseq[x] /\ due[y] < due[x]) => ~PendingI(y)
     NotEarly == \A x \in Items : runTh[x] # 0 => startT[x] >= due[x]
     CancelledNeverRuns == \A x \in early : x \notin picked
     NoRunAfterDisposeReturned == \A x \in late : enq[x] = 0 /\ x \notin picked
@@ -97,7 +99,7 @@ c1:         if (disposedF) {                       \* unlocked test: raise Dispo
             } else {
 c2:             \* with self._condition: classify, enqueue, notify, _ensure_thread
                 stamp := stamp + 1;
-                enq[item] := stamp;
+                enq[item] := stamp; effH[item] := now;
                 if (due[item] <= now) { ready := Append(ready, item); immH[item] := TRUE }
                 else { queue := Insert(queue, item) };
                 Notify();
@@ -159,11 +161,11 @@ process (Clock = 0)
 t0: while (now < MaxT) { now := now + 1 }
 }
 } *)
-\* BEGIN TRANSLATION (chksum(pcal) = "f83e64e7" /\ chksum(tla) = "679baffb")
+\* BEGIN TRANSLATION (chksum(pcal) = "9c8557cb" /\ chksum(tla) = "2ec5b95c")
 VARIABLES pc, now, xie, ready, queue, disposedF, thread, spawned, batch, 
-          waiting, deadline, notified, cancelled, due, enq, immH, cseq, stamp, 
-          picked, running, runTh, startT, handle, used, dispRet, late, early, 
-          refused, calls
+          waiting, deadline, notified, cancelled, due, enq, immH, effH, cseq, 
+          stamp, picked, running, runTh, startT, handle, used, dispRet, late, 
+          early, refused, calls
 
 (* define statement *)
 Due(x) == due[x]
@@ -191,6 +193,8 @@ OneThread == /\ \A x \in Items : runTh[x] # 0 => runTh[x] \in Loops
              /\ ~xie => Cardinality(spawned) <= 1
 Fifo == \A x, y \in Items : (immH[x] /\ immH[y] /\ enq[x] # 0 /\ enq[x] < enq[y] /\ y \in picked) => ~PendingI(x)
 DueOrder == \A x, y \in Items : (~immH[x] /\ ~immH[y] /\ enq[x] # 0 /\ y \in picked /\ enq[x] < cseq[y] /\ due[x] < due[y]) => ~PendingI(x)
+CrossOrderTI == \A x, y \in Items : (immH[x] /\ ~immH[y] /\ enq[x] # 0 /\ y \in picked /\ enq[x] < cseq[y] /\ effH[x] < due[y]) => ~PendingI(x)
+CrossOrderIT == \A x, y \in Items : (immH[x] /\ ~immH[y] /\ enq[y] # 0 /\ x \in picked /\ enq[y] < cseq[x] /\ due[y] < due[x]) => ~PendingI(y)
 NotEarly == \A x \in Items : runTh[x] # 0 => startT[x] >= due[x]
 CancelledNeverRuns == \A x \in early : x \notin picked
 NoRunAfterDisposeReturned == \A x \in late : enq[x] = 0 /\ x \notin picked
@@ -204,7 +208,7 @@ NoLostWakeup == \A w \in Loops : (waiting[w] # "no" /\ ~notified[w] /\ ~disposed
 VARIABLES item, cur
 
 vars == << pc, now, xie, ready, queue, disposedF, thread, spawned, batch, 
-           waiting, deadline, notified, cancelled, due, enq, immH, cseq, 
+           waiting, deadline, notified, cancelled, due, enq, immH, effH, cseq, 
            stamp, picked, running, runTh, startT, handle, used, dispRet, late, 
            early, refused, calls, item, cur >>
 
@@ -226,6 +230,7 @@ Init == (* Global variables *)
         /\ due = [x \in Items |-> 0]
         /\ enq = [x \in Items |-> 0]
         /\ immH = [x \in Items |-> FALSE]
+        /\ effH = [x \in Items |-> 0]
         /\ cseq = [x \in Items |-> 0]
         /\ stamp = 0
         /\ picked = {}
@@ -278,8 +283,8 @@ c0(self) == /\ pc[self] = "c0"
                        /\ UNCHANGED << due, used, late, calls, item >>
             /\ UNCHANGED << now, xie, ready, queue, disposedF, thread, spawned, 
                             batch, waiting, deadline, notified, cancelled, enq, 
-                            immH, cseq, stamp, picked, running, runTh, startT, 
-                            handle, dispRet, early, refused, cur >>
+                            immH, effH, cseq, stamp, picked, running, runTh, 
+                            startT, handle, dispRet, early, refused, cur >>
 
 c1(self) == /\ pc[self] = "c1"
             /\ IF disposedF
@@ -289,13 +294,14 @@ c1(self) == /\ pc[self] = "c1"
                        /\ UNCHANGED refused
             /\ UNCHANGED << now, xie, ready, queue, disposedF, thread, spawned, 
                             batch, waiting, deadline, notified, cancelled, due, 
-                            enq, immH, cseq, stamp, picked, running, runTh, 
-                            startT, handle, used, dispRet, late, early, calls, 
-                            item, cur >>
+                            enq, immH, effH, cseq, stamp, picked, running, 
+                            runTh, startT, handle, used, dispRet, late, early, 
+                            calls, item, cur >>
 
 c2(self) == /\ pc[self] = "c2"
             /\ stamp' = stamp + 1
             /\ enq' = [enq EXCEPT ![item[self]] = stamp']
+            /\ effH' = [effH EXCEPT ![item[self]] = now]
             /\ IF due[item[self]] <= now
                   THEN /\ ready' = Append(ready, item[self])
                        /\ immH' = [immH EXCEPT ![item[self]] = TRUE]
@@ -324,16 +330,16 @@ c3(self) == /\ pc[self] = "c3"
             /\ pc' = [pc EXCEPT ![self] = "c0"]
             /\ UNCHANGED << now, xie, ready, queue, disposedF, thread, spawned, 
                             batch, waiting, deadline, notified, cancelled, due, 
-                            enq, immH, cseq, stamp, picked, running, runTh, 
-                            startT, used, dispRet, late, early, refused, calls, 
-                            item, cur >>
+                            enq, immH, effH, cseq, stamp, picked, running, 
+                            runTh, startT, used, dispRet, late, early, refused, 
+                            calls, item, cur >>
 
 k1(self) == /\ pc[self] = "k1"
             /\ cancelled' = [cancelled EXCEPT ![item[self]] = TRUE]
             /\ pc' = [pc EXCEPT ![self] = "k2"]
             /\ UNCHANGED << now, xie, ready, queue, disposedF, thread, spawned, 
                             batch, waiting, deadline, notified, due, enq, immH, 
-                            cseq, stamp, picked, running, runTh, startT, 
+                            effH, cseq, stamp, picked, running, runTh, startT, 
                             handle, used, dispRet, late, early, refused, calls, 
                             item, cur >>
 
@@ -345,9 +351,9 @@ k2(self) == /\ pc[self] = "k2"
             /\ pc' = [pc EXCEPT ![self] = "c0"]
             /\ UNCHANGED << now, xie, ready, queue, disposedF, thread, spawned, 
                             batch, waiting, deadline, notified, cancelled, due, 
-                            enq, immH, cseq, stamp, picked, running, runTh, 
-                            startT, handle, used, dispRet, late, refused, 
-                            calls, item, cur >>
+                            enq, immH, effH, cseq, stamp, picked, running, 
+                            runTh, startT, handle, used, dispRet, late, 
+                            refused, calls, item, cur >>
 
 d1(self) == /\ pc[self] = "d1"
             /\ IF ~disposedF
@@ -361,19 +367,19 @@ d1(self) == /\ pc[self] = "d1"
                        /\ UNCHANGED << disposedF, notified >>
             /\ pc' = [pc EXCEPT ![self] = "d2"]
             /\ UNCHANGED << now, xie, ready, queue, thread, spawned, batch, 
-                            waiting, deadline, cancelled, due, enq, immH, cseq, 
-                            stamp, picked, running, runTh, startT, handle, 
-                            used, dispRet, late, early, refused, calls, item, 
-                            cur >>
+                            waiting, deadline, cancelled, due, enq, immH, effH, 
+                            cseq, stamp, picked, running, runTh, startT, 
+                            handle, used, dispRet, late, early, refused, calls, 
+                            item, cur >>
 
 d2(self) == /\ pc[self] = "d2"
             /\ dispRet' = TRUE
             /\ pc' = [pc EXCEPT ![self] = "c0"]
             /\ UNCHANGED << now, xie, ready, queue, disposedF, thread, spawned, 
                             batch, waiting, deadline, notified, cancelled, due, 
-                            enq, immH, cseq, stamp, picked, running, runTh, 
-                            startT, handle, used, late, early, refused, calls, 
-                            item, cur >>
+                            enq, immH, effH, cseq, stamp, picked, running, 
+                            runTh, startT, handle, used, late, early, refused, 
+                            calls, item, cur >>
 
 Client(self) == c0(self) \/ c1(self) \/ c2(self) \/ c3(self) \/ k1(self)
                    \/ k2(self) \/ d1(self) \/ d2(self)
@@ -383,8 +389,8 @@ l0(self) == /\ pc[self] = "l0"
             /\ pc' = [pc EXCEPT ![self] = "l1"]
             /\ UNCHANGED << now, xie, ready, queue, disposedF, thread, spawned, 
                             batch, waiting, deadline, notified, cancelled, due, 
-                            enq, immH, cseq, stamp, picked, running, runTh, 
-                            startT, handle, used, dispRet, late, early, 
+                            enq, immH, effH, cseq, stamp, picked, running, 
+                            runTh, startT, handle, used, dispRet, late, early, 
                             refused, calls, item, cur >>
 
 l1(self) == /\ pc[self] = "l1"
@@ -397,7 +403,7 @@ l1(self) == /\ pc[self] = "l1"
                        /\ pc' = [pc EXCEPT ![self] = "l2"]
             /\ UNCHANGED << now, xie, disposedF, thread, spawned, waiting, 
                             deadline, notified, cancelled, due, enq, immH, 
-                            cseq, stamp, picked, running, runTh, startT, 
+                            effH, cseq, stamp, picked, running, runTh, startT, 
                             handle, used, dispRet, late, early, refused, calls, 
                             item, cur >>
 
@@ -416,7 +422,7 @@ l2(self) == /\ pc[self] = "l2"
                        /\ UNCHANGED << batch, cseq, stamp, picked, cur >>
             /\ UNCHANGED << now, xie, ready, queue, disposedF, thread, spawned, 
                             waiting, deadline, notified, cancelled, due, enq, 
-                            immH, running, runTh, startT, handle, used, 
+                            immH, effH, running, runTh, startT, handle, used, 
                             dispRet, late, early, refused, calls, item >>
 
 l3(self) == /\ pc[self] = "l3"
@@ -426,7 +432,7 @@ l3(self) == /\ pc[self] = "l3"
             /\ pc' = [pc EXCEPT ![self] = "l4"]
             /\ UNCHANGED << now, xie, ready, queue, disposedF, thread, spawned, 
                             batch, waiting, deadline, notified, cancelled, due, 
-                            enq, immH, cseq, stamp, picked, handle, used, 
+                            enq, immH, effH, cseq, stamp, picked, handle, used, 
                             dispRet, late, early, refused, calls, item, cur >>
 
 l4(self) == /\ pc[self] = "l4"
@@ -434,9 +440,9 @@ l4(self) == /\ pc[self] = "l4"
             /\ pc' = [pc EXCEPT ![self] = "l2"]
             /\ UNCHANGED << now, xie, ready, queue, disposedF, thread, spawned, 
                             batch, waiting, deadline, notified, cancelled, due, 
-                            enq, immH, cseq, stamp, picked, runTh, startT, 
-                            handle, used, dispRet, late, early, refused, calls, 
-                            item, cur >>
+                            enq, immH, effH, cseq, stamp, picked, runTh, 
+                            startT, handle, used, dispRet, late, early, 
+                            refused, calls, item, cur >>
 
 l5(self) == /\ pc[self] = "l5"
             /\ IF ready # <<>>
@@ -462,9 +468,9 @@ l5(self) == /\ pc[self] = "l5"
                                              /\ UNCHANGED thread
                                   /\ UNCHANGED deadline
             /\ UNCHANGED << now, xie, ready, queue, disposedF, spawned, batch, 
-                            cancelled, due, enq, immH, cseq, stamp, picked, 
-                            running, runTh, startT, handle, used, dispRet, 
-                            late, early, refused, calls, item, cur >>
+                            cancelled, due, enq, immH, effH, cseq, stamp, 
+                            picked, running, runTh, startT, handle, used, 
+                            dispRet, late, early, refused, calls, item, cur >>
 
 l6(self) == /\ pc[self] = "l6"
             /\ notified[self] \/ (waiting[self] = "timed" /\ now >= deadline[self])
@@ -472,17 +478,17 @@ l6(self) == /\ pc[self] = "l6"
             /\ pc' = [pc EXCEPT ![self] = "l1"]
             /\ UNCHANGED << now, xie, ready, queue, disposedF, thread, spawned, 
                             batch, deadline, notified, cancelled, due, enq, 
-                            immH, cseq, stamp, picked, running, runTh, startT, 
-                            handle, used, dispRet, late, early, refused, calls, 
-                            item, cur >>
+                            immH, effH, cseq, stamp, picked, running, runTh, 
+                            startT, handle, used, dispRet, late, early, 
+                            refused, calls, item, cur >>
 
 lx(self) == /\ pc[self] = "lx"
             /\ TRUE
             /\ pc' = [pc EXCEPT ![self] = "Done"]
             /\ UNCHANGED << now, xie, ready, queue, disposedF, thread, spawned, 
                             batch, waiting, deadline, notified, cancelled, due, 
-                            enq, immH, cseq, stamp, picked, running, runTh, 
-                            startT, handle, used, dispRet, late, early, 
+                            enq, immH, effH, cseq, stamp, picked, running, 
+                            runTh, startT, handle, used, dispRet, late, early, 
                             refused, calls, item, cur >>
 
 Loop(self) == l0(self) \/ l1(self) \/ l2(self) \/ l3(self) \/ l4(self)
@@ -496,8 +502,9 @@ t0 == /\ pc[0] = "t0"
                  /\ now' = now
       /\ UNCHANGED << xie, ready, queue, disposedF, thread, spawned, batch, 
                       waiting, deadline, notified, cancelled, due, enq, immH, 
-                      cseq, stamp, picked, running, runTh, startT, handle, 
-                      used, dispRet, late, early, refused, calls, item, cur >>
+                      effH, cseq, stamp, picked, running, runTh, startT, 
+                      handle, used, dispRet, late, early, refused, calls, item, 
+                      cur >>
 
 Clock == t0
 
